@@ -4,6 +4,7 @@
 //! - helpers to emit result files.
 
 pub mod clock;
+pub mod meter;
 pub mod rng;
 
 pub use rng::Rng;
